@@ -44,7 +44,7 @@ def run(ck, rng, tier):
     dist_meta = []
     for _ in range(25 if not thorough else 200):
         n1, n2, c = rng.randint(1, 60 if thorough else 25), rng.randint(1, 12), rng.randint(1, 10)
-        mag = rng.choice((0, 0, 3, -3, -6, 6)) if _ >= 3 else (-6, -5, 6)[_]   # units from 1e-6 to 1e6 on every run
+        mag = rng.choice((0, 0, 3, -3, -6, 6)) if _ >= 5 else (-6, -5, 6, 78, -80)[_]   # units from 1e-6 to 1e6 on every run, and two extreme ones
         m1 = [[rng.gauss(0, 1) * 10 ** mag for _ in range(c)] for _ in range(n1)]
         m2 = [[rng.gauss(0, 1) * 10 ** mag for _ in range(c)] for _ in range(n2)]
         T = rng.choice((1, 2, 3, 5, 8, 16))
@@ -116,6 +116,8 @@ def run(ck, rng, tier):
             S = o["self%d" % me]
             C = o["cond%d" % me]
             bad = None
+            if repr(o["st%d" % me]) != repr(o["square%d" % me]):
+                bad = "the threaded table differs from the single-threaded routine (%s_ST)" % name
             if repr(S) != repr(o["selfcopy%d" % me]):
                 bad = "CalculateDistance(m, m) differs from CalculateDistance(m, copy of m)"
             idx = 0
